@@ -26,5 +26,43 @@ namespace verif
         std::size_t max_node_size() const;
         std::size_t max_array_size() const;
         std::size_t max_alignment() const;
+        // composable interface
+        void* try_allocate_node(std::size_t size, std::size_t alignment) noexcept;
+        void* try_allocate_array(std::size_t count, std::size_t size, std::size_t alignment) noexcept;
+        bool try_deallocate_node(void* p, std::size_t size, std::size_t alignment) noexcept;
+        bool try_deallocate_array(void* p, std::size_t count, std::size_t size, std::size_t alignment) noexcept;
+    };
+    // a second, distinct abstract allocator type (fallback / segregator partner)
+    struct raw_alloc2
+    {
+        using is_stateful = std::true_type;
+        int id;
+        void* allocate_node(std::size_t size, std::size_t alignment);
+        void* allocate_array(std::size_t count, std::size_t size, std::size_t alignment);
+        void deallocate_node(void* p, std::size_t size, std::size_t alignment) noexcept;
+        void deallocate_array(void* p, std::size_t count, std::size_t size, std::size_t alignment) noexcept;
+        std::size_t max_node_size() const;
+        std::size_t max_array_size() const;
+        std::size_t max_alignment() const;
+        void* try_allocate_node(std::size_t size, std::size_t alignment) noexcept;
+        void* try_allocate_array(std::size_t count, std::size_t size, std::size_t alignment) noexcept;
+        bool try_deallocate_node(void* p, std::size_t size, std::size_t alignment) noexcept;
+        bool try_deallocate_array(void* p, std::size_t count, std::size_t size, std::size_t alignment) noexcept;
+    };
+    // abstract BasicLockable
+    struct mutex
+    {
+        int id;
+        void lock();
+        void unlock() noexcept;
+    };
+    // abstract tracker
+    struct tracker
+    {
+        int id;
+        void on_node_allocation(void* mem, std::size_t size, std::size_t alignment) noexcept;
+        void on_array_allocation(void* mem, std::size_t count, std::size_t size, std::size_t alignment) noexcept;
+        void on_node_deallocation(void* ptr, std::size_t size, std::size_t alignment) noexcept;
+        void on_array_deallocation(void* ptr, std::size_t count, std::size_t size, std::size_t alignment) noexcept;
     };
 } // namespace verif
